@@ -13,11 +13,11 @@ MNext ==
        \/ \E n \in 1..MaxN, res \in {"ok", "STREAM_STATE_ERROR"}, ms \in Frs(0..(MaxN + Limit)) : CompleteIn(n, res, ms)
        \/ \E n \in 1..MaxN, res \in {"ok", "STREAM_STATE_ERROR"} : CompleteOut(n, res)
        \/ Close )
-  \/ \E c \in Callers, res \in 1..MaxN : ServeOpen(c, res)
+  \/ \E c \in Callers, res \in 1..MaxN : ServeOpen(c, res, <<>>)
   \/ \E c \in Callers, res \in 1..MaxN, ms \in Frs(0..(MaxN + Limit)) : ServeAccept(c, res, ms)
   \/ \E c \in Callers : ClosedReturn(c)
 MSpec == Init /\ [][MNext]_vars
 \* liveness: a waiter is served once credit arrives (weak fairness on serving)
-Fair == MSpec /\ WF_vars(\E c \in Callers, res \in 1..MaxN : ServeOpen(c, res))
+Fair == MSpec /\ WF_vars(\E c \in Callers, res \in 1..MaxN : ServeOpen(c, res, <<>>))
 WaiterServed == \A c \in Callers : [](c \in Range(queue) /\ next <= peerMax /\ c = Head(queue) => <>(c \notin Range(queue)))
 =============================================================================
